@@ -26,7 +26,8 @@ Inductive ev :=
 
 Inductive err :=
 | UseAfterFree (c : nat) | ServiceUseAfterFree | RefUnderflow (c : nat) | ServiceRefUnderflow
-| OrderViolation (k : kind) (c : nat) | DestroyedWhileHeld (c : nat) | OutOfFuel.
+| OrderViolation (k : kind) (c : nat) | DestroyedWhileHeld (c : nat) | OutOfFuel
+| TransportGone (c : nat).     (* the flow-control word of a connection whose rings / control page were released *)
 
 Record conn := mkConn {
   c_alloc : bool;          (* false = free()d (or never allocated) *)
@@ -138,11 +139,11 @@ Section Lib.
     end.
 
   (* qb_ipcs_connection_ref *)
-  Definition ref (c : nat) (w : world) : R :=
+  Definition conn_ref (c : nat) (w : world) : R :=
     chk c w (let x := conns w c in Ok (put c (w_rc (c_rc x + 1) x) w) 0).
 
   (* qb_ipcs_connection_unref *)
-  Definition unref (c : nat) (w : world) : R :=
+  Definition conn_unref (c : nat) (w : world) : R :=
     chk c w (
       let x := conns w c in
       if c_rc x <? 1 then Fail (RefUnderflow c) w else
@@ -165,7 +166,7 @@ Section Lib.
       let w1 := if fixed then put c (w_notified true x) w else w in
       chks w1 (                                          (* c->service->serv_fns.connection_closed *)
       bind (cb KClosed c w1) (fun w2 r =>
-      if r =? 0 then chk c w2 (unref c w2)               (* remove_tempdir(c->description); unref *)
+      if r =? 0 then chk c w2 (conn_unref c w2)               (* remove_tempdir(c->description); conn_unref *)
       else chk c w2 (chks w2 (                           (* c->service->poll_fns.job_add *)
            let w3 := set_jobs (jobs w2 ++ [c]) w2 in
            chk c w3 (Ok w3 0)))))).                      (* remove_tempdir(c->description) *)
@@ -175,7 +176,7 @@ Section Lib.
     chk c w (
       match c_st (conns w c) with
       | ACTIVE => chks w (let w1 := funcs_disconnect c w in
-                          let w2 := put c (w_st INACTIVE (conns w1 c)) w1 in unref c w2)
+                          let w2 := put c (w_st INACTIVE (conns w1 c)) w1 in conn_unref c w2)
       | ESTABLISHED => chks w (let w1 := funcs_disconnect c w in
                                let w2 := put c (w_st SHUTTING_DOWN (conns w1 c)) w1 in disconnect_sd c w2)
       | SHUTTING_DOWN => disconnect_sd c w
@@ -189,7 +190,7 @@ Section Lib.
 
   (* qb_ipcs_event_send / qb_ipcs_response_send: temporary reference around the transport send *)
   Definition srv_send (c : nat) (w : world) : R :=
-    chk c w (bind (ref c w) (fun w1 _ => chk c w1 (chks w1 (unref c w1)))).
+    chk c w (bind (conn_ref c w) (fun w1 _ => chk c w1 (chks w1 (conn_unref c w1)))).
 
   (* _request_q_len_get *)
   Definition q_len (c : nat) (w : world) : Z :=
@@ -220,10 +221,10 @@ Section Lib.
   (* qb_ipcs_dispatch_connection_request(fd, revents, c) *)
   Definition dispatch (c : nat) (hup : bool) (w : world) : R :=
     chk c w (
-      bind (if fixed then ref c w else Ok w 0) (fun w0 _ =>
+      bind (if fixed then conn_ref c w else Ok w 0) (fun w0 _ =>
       let finish (w : world) (res : Z) : R :=
           bind (if res =? 0 then Ok w 0 else disconnect c w) (fun w' _ =>
-          if fixed then unref c w' else Ok w' 0) in
+          if fixed then conn_unref c w' else Ok w' 0) in
       if hup then finish w0 1
       else chk c w0 (
         if negb (c_fc (conns w0 c) =? 0) then finish w0 0
@@ -241,13 +242,13 @@ Section Lib.
   Definition first_get (w : world) : R :=
     chks w (match s_list w with
             | [] => Ok w (-1)
-            | c :: _ => bind (ref c w) (fun w1 _ => Ok w1 (Z.of_nat c))
+            | c :: _ => bind (conn_ref c w) (fun w1 _ => Ok w1 (Z.of_nat c))
             end).
   (* qb_ipcs_connection_next_get *)
   Definition next_get (c : nat) (w : world) : R :=
     chk c w (chks w (match succ_of c (s_list w) with
                      | None => Ok w (-1)
-                     | Some n => bind (ref n w) (fun w1 _ => Ok w1 (Z.of_nat n))
+                     | Some n => bind (conn_ref n w) (fun w1 _ => Ok w1 (Z.of_nat n))
                      end)).
 
   (* the reference-holding walk: application iteration (lg = true), and qb_ipcs_destroy when fixed *)
@@ -258,7 +259,7 @@ Section Lib.
       let w0 := if lg then logit (EIt c) w else w in
       bind (if disc then disconnect c w0 else Ok w0 0) (fun w1 _ =>
       bind (next_get c w1) (fun w2 n =>
-      bind (unref c w2) (fun w3 _ =>
+      bind (conn_unref c w2) (fun w3 _ =>
       if n <? 0 then Ok w3 0 else walk lg disc f (Z.to_nat n) w3)))
     end.
   Definition iterate (lg disc : bool) (w : world) : R :=
@@ -285,11 +286,14 @@ Section Lib.
   (* qb_ipcs_request_rate_limit (+ qb_ipcs_flowcontrol_set, _modify_dispatch_descriptor_) *)
   Definition rate_one (newfc : Z) (changed : bool) (c : nat) (w : world) : R :=
     chk c w (
-    bind (ref c w) (fun w1 _ =>
+    let live := st_eqb (c_st (conns w c)) ACTIVE || st_eqb (c_st (conns w c)) ESTABLISHED in
+    if fixed && negb live then Ok w 0 else                 (* fixed: skip disconnected connections *)
+    if st_eqb (c_st (conns w c)) INACTIVE && negb (c_fc (conns w c) =? newfc) then Fail (TransportGone c) w else
+    bind (conn_ref c w) (fun w1 _ =>
     chk c w1 (
     let x := conns w1 c in
     let w2 := if c_fc x =? newfc then w1 else put c (w_fc newfc x) w1 in
-    (if changed then chk c w2 (chks w2 (unref c w2)) else unref c w2)))).
+    (if changed then chk c w2 (chks w2 (conn_unref c w2)) else conn_unref c w2)))).
   Fixpoint rate_loop (newfc : Z) (changed : bool) (l : list nat) (w : world) : R :=
     match l with
     | [] => Ok w 0
@@ -328,12 +332,12 @@ Section Lib.
   Definition do_action (a : action) (self : option nat) (w : world) : R :=
     match a with
     | ADisc t => on_conn 1 t self w disconnect
-    | ARef t => on_conn 2 t self w (fun c w => let x := conns w c in ref c (put c (w_uref (c_uref x + 1) x) w))
+    | ARef t => on_conn 2 t self w (fun c w => let x := conns w c in conn_ref c (put c (w_uref (c_uref x + 1) x) w))
     | AUnref t =>
       match tgt_id t self with
       | Some c => if allowed c w && (0 <? c_uref (conns w c))
                   then let w1 := logit (EAct 3 (Z.of_nat c)) w in
-                       let x := conns w1 c in unref c (put c (w_uref (c_uref x - 1) x) w1)
+                       let x := conns w1 c in conn_unref c (put c (w_uref (c_uref x - 1) x) w1)
                   else Ok (logit (ESkip 3 (Z.of_nat c)) w) 0
       | None => Ok (logit (ESkip 3 (-1)) w) 0
       end
@@ -363,22 +367,24 @@ Section Lib.
   Definition handle_new (slot : nat) (w : world) : R :=
     chks w (
     let c := next w in
-    let x := mkConn true INACTIVE 1 false false 0 0 false P0 0 in       (* qb_ipcs_connection_alloc: ref + service ref *)
+    let x := mkConn true INACTIVE 1 false false 0 0 false P0 0 in       (* qb_ipcs_connection_alloc: conn_ref + service conn_ref *)
     let w1 := set_slots (updf (slots w) slot (Some c)) (set_svc true (s_rc w + 1) (set_next (S c) (put c x w))) in
     bind (cb KAccept c w1) (fun w2 r =>
     chk c w2 (
     if negb (r =? 0) then
       (* send_response with the error; state is INACTIVE: drop the allocation reference, close the socket *)
-      bind (unref c w2) (fun w3 _ => Ok (set_slots (updf (slots w3) slot None) w3) r)
+      bind (conn_unref c w2) (fun w3 _ => Ok (set_slots (updf (slots w3) slot None) w3) r)
     else chks w2 (                                                     (* s->funcs.connect, list_add *)
       let w3 := put c (w_st ACTIVE (w_reg true (conns w2 c))) w2 in
       let w4 := set_list (c :: s_list w3) w3 in
-      bind (ref c w4) (fun w5 _ =>
+      bind (conn_ref c w4) (fun w5 _ =>
       bind (cb KCreated c w5) (fun w6 _ =>
       chk c w6 (
       let x6 := conns w6 c in
       let w7 := if st_eqb (c_st x6) ACTIVE then put c (w_st ESTABLISHED x6) w6 else w6 in
-      bind (unref c w7) (fun w8 _ => Ok w8 0)))))))).
+      bind (conn_unref c w7) (fun w8 _ =>
+      (* the client: its connect succeeds iff the server side is still there (kernel/peer, not server code) *)
+      if st_eqb (c_st x6) ACTIVE then Ok w8 0 else Ok (set_slots (updf (slots w8) slot None) w8) (-999))))))))).
 End Lib.
 
 (* ---- the application's callbacks: pop the next behaviour entry of this kind, check the order automaton,
@@ -408,7 +414,7 @@ Fixpoint invoke (shm fixed : bool) (n : nat) (k : kind) (c : nat) (w : world) : 
 Inductive op :=
 | OBeh (k : kind) (b : behav)       (* extend the behaviour table *)
 | OConn (slot : nat)
-| OReq (slot : nat)
+| OReq (slot : nat) (accepted : bool)   (* accepted: the kernel took the datagram / notification byte (oracle) *)
 | OHup (slot : nat)                 (* client disconnects or dies: same thing for the server *)
 | OTurn (c : nat)
 | OJobs
@@ -440,11 +446,11 @@ Section Top.
     | OConn slot =>
       if Nat.ltb slot maxslots && negb (destroy_called w) && (match slots w slot with None => true | Some _ => false end)
       then handle_new cb slot w else Ok w (-1000)
-    | OReq slot =>
+    | OReq slot accepted =>
       match (if Nat.ltb slot maxslots then slots w slot else None) with
       | None => Ok w (-1000)
       | Some c => let x := conns w c in
-                  if c_alloc x && st_eqb (c_st x) ESTABLISHED && negb (c_fc x =? 1)
+                  if accepted && c_alloc x && st_eqb (c_st x) ESTABLISHED && negb (c_fc x =? 1)
                   then Ok (put c (w_nreq (c_nreq x + 1) x) w) 1 else Ok w 0
       end
     | OHup slot =>
